@@ -50,6 +50,9 @@
                   of the slot TAKEN)                                                   [rejected:...:state-root-mismatch]
      R-PICK       both sides pick the first min(max-block-proposers, MbpCap) endorsed candidates (SatFlags)   [pick-mismatch]
      R-SKIP       a tx the packer cannot start executing leaves no trace in the block's state (kind "abort")
+     R-DEP        flow.Adopt takes a tx with DependsOn only if the dependency is FOUND - included earlier on this chain or
+                  adopted earlier in this very flow - AND NOT REVERTED; otherwise the tx is not adoptable (now / ever) and
+                  stays out of the block (DepAdoptable; kind "dep")   [packer:adopt-dependency, rejected:...:tx-dep]
 
    Validator histories are sequences of the actions below on one node: cold (nothing cached: after Restart / Evict),
    warm on the parent (Validate(parent) before), warm on a sibling (Validate(sibling) first - it reads, and may share,
@@ -214,7 +217,9 @@ ApplyTx(W, tx, num) ==
     [] tx.k = "sben" ->
          IF W.val[tx.m].st \notin {"queued", "active"} \/ W.val[tx.m].exitB # 0 THEN same
          ELSE [w |-> [W EXCEPT !.val[tx.m].ben = tx.v], f |-> [NoFlags EXCEPT !.sk = TRUE, !.be = TRUE]]
-    [] OTHER -> same      \* "plain", "reverted": nothing the proposer machinery looks at; "abort": skipped by the packer
+    [] OTHER -> same      \* "plain", "reverted", "dep": nothing the proposer machinery looks at; "abort": skipped by the packer
+\* R-DEP: the per-tx verdict of flow.Adopt on a dependent tx (a validator rejects the whole block otherwise)
+DepAdoptable(found, reverted) == found /\ ~reverted
 OrFlags(a, b) == [au |-> a.au \/ b.au, pa |-> a.pa \/ b.pa, sk |-> a.sk \/ b.sk, be |-> a.be \/ b.be, xf |-> a.xf \cup b.xf]
 RECURSIVE ApplyTxs(_, _, _, _)
 ApplyTxs(W, f, txs, num) ==
